@@ -128,6 +128,12 @@ def run(chk):
                 conn.register_exception_handler(h, *[types[j] for j in flt], early=early)
                 handlers.append((i, flt, beh, reconn, raise_cls))
                 order = [len(handlers) - 1] + order if early else order + [len(handlers) - 1]
+                if beh == 'ret' and not reconn and rng.random() < 0.2:
+                    # the same function registered once more with the same types (a second, independent clause of the chain)
+                    early2 = rng.random() < 0.5
+                    conn.register_exception_handler(h, *[types[j] for j in flt], early=early2)
+                    handlers.append((i, flt, beh, reconn, raise_cls))
+                    order = [len(handlers) - 1] + order if early2 else order + [len(handlers) - 1]
             conn.connect()
             first_sock = None
             res = net.run_threads(conn, max_threads=1)
